@@ -273,6 +273,133 @@ def check_scenario(sc, ev=None, scratch=None, only_k=None):
             scratch.clean()
 
 
+# ---- a result written by a user codec straight into the final blob file ------------------------------------------------
+
+CODEC_SRC = """import dds
+import vlog
+from vf.harness.c06_codec import Table
+
+VS = {vs}
+
+
+@dds.data_function('/tbl')
+def f():
+    vlog.rec('f')
+    return Table(['row%d' % (VS * 10 + i) for i in range({n})])
+"""
+
+
+def codec_process_fn(root_dir, store_dir, cache, evals=1, loads=()):
+    def fn():
+        import importlib
+        import sys
+
+        sys.path.insert(0, root_dir)
+        importlib.invalidate_caches()
+        import dds
+        import vlog
+        from ..harness import c06_codec
+
+        dds.accept_module("pk")
+        dds.set_store("local", internal_dir=os.path.join(store_dir, "internal"), data_dir=os.path.join(store_dir, "data"), cache_objects=cache)
+        dds._api._store().codec_registry().add_codec(c06_codec.make_codec())
+        out = {"evals": [], "loads": {}, "loads_after": {}}
+
+        def do_loads(into):
+            for p in loads:
+                try:
+                    into[p] = ("ok", dds.load(p).rows)
+                except BaseException as e:  # noqa
+                    into[p] = ("exc", f"{type(e).__name__}: {e}"[:300])
+
+        do_loads(out["loads"])
+        for _ in range(evals):
+            fun = getattr(importlib.import_module("pk.m0"), "f")
+            vlog.take()
+            val = fun()
+            out["evals"].append((getattr(val, "rows", val), vlog.take()))
+            if "loads_first" not in out:
+                out["loads_first"] = {}
+                do_loads(out["loads_first"])
+        do_loads(out["loads_after"])
+        return out
+
+    return fn
+
+
+def codec_strategy():
+    from hypothesis import strategies as st
+
+    return st.fixed_dictionaries({"codec": st.just(True), "start": st.sampled_from(["fresh", "old_version"]), "rows": st.integers(1, 3), "cache": st.sampled_from([None, 2])})
+
+
+def check_codec_scenario(sc, ev=None, scratch=None, only_k=None):
+    own = scratch is None
+    scratch = scratch or common.Scratch("vf-c06")
+    import dds  # noqa
+    from ..harness import c06_codec  # noqa: loaded before the fork
+    try:
+        base = scratch.sub()
+        live, template = os.path.join(base, "live"), os.path.join(base, "template")
+        n = sc["rows"]
+        rows = {tag: ["row%d" % (vs * 10 + i) for i in range(n)] for tag, vs in (("old", 1), ("new", 2))}
+        dirs = {}
+        for tag, vs in (("old", 1), ("new", 2)):
+            dirs[tag] = os.path.join(base, "src_" + tag)
+            for rel, content in {"pk/__init__.py": "", "pk/m0.py": CODEC_SRC.format(vs=vs, n=n), "vlog.py": worker.VLOG_SRC}.items():
+                p = os.path.join(dirs[tag], rel)
+                os.makedirs(os.path.dirname(p), exist_ok=True)
+                with open(p, "w") as f:
+                    f.write(content)
+        what = f"user codec writing into the final blob file, start={sc['start']} cache={sc['cache']} rows={n}"
+        pre = None
+        if sc["start"] == "old_version":
+            r = sched.run_plain(codec_process_fn(dirs["old"], live, sc["cache"]))
+            if r[0] != "ok":
+                raise Violation(f"{what}: populating the store raised {r[1]}", sc)
+            pre = rows["old"]
+        copy_store(live, template)
+        victim = codec_process_fn(dirs["new"], live, sc["cache"])
+        copy_store(template, live)
+        dry = sched.run([victim])
+        if dry["blocked"]:
+            return
+        res = dry["results"][0]
+        if res[0] != "ok" or res[1]["evals"][0][0] != rows["new"]:
+            raise Violation(f"{what}: the victim (not killed) returned {res!r}", sc)
+        trace = [(op, path) for (_s, op, path) in dry["trace"]]
+        nb = len(trace)
+        for k in (range(1, nb) if only_k is None else [only_k]):
+            copy_store(template, live)
+            run = sched.run([victim], kill=(0, k))
+            if not run["killed"]:
+                raise common.HarnessError(f"victim finished before boundary {k}")
+            at = f"{what}: victim killed before operation #{k} {trace[k]} (after {trace[k - 1]})"
+            case = dict(sc, k=k)
+            if pre is not None:
+                obs = sched.run_plain(codec_process_fn(dirs["new"], live, sc["cache"], evals=0, loads=["/tbl"]))
+                if obs[0] != "ok" or obs[1]["loads"]["/tbl"] not in (("ok", pre), ("ok", rows["new"])):
+                    raise Violation(f"{at}: the path committed before the crash loads {obs[1] if obs[0] != 'ok' else obs[1]['loads']['/tbl']!r}, neither its old nor its new value", case)
+            rec = sched.run_plain(codec_process_fn(dirs["new"], live, sc["cache"], evals=2, loads=["/tbl"]))
+            if rec[0] != "ok":
+                raise Violation(f"{at}: the next process evaluating the pipeline raised {rec[1]['type']}: {rec[1]['msg'][:300]}", case)
+            (v1, _l1), (v2, l2) = rec[1]["evals"]
+            if v1 != rows["new"] or v2 != rows["new"]:
+                raise Violation(f"{at}: the next process evaluated to {v1!r} then {v2!r}, expected {rows['new']!r}", case)
+            if "f" in l2:
+                raise Violation(f"{at}: the second evaluation after recovery re-executed the function", case)
+            for when in ("loads_first", "loads_after"):
+                if rec[1][when]["/tbl"] != ("ok", rows["new"]):
+                    raise Violation(f"{at}: after recovery the path loads {rec[1][when]['/tbl']!r}, expected {rows['new']!r}", case)
+            if ev is not None:
+                ev.case({"user_codec": True, "start": sc["start"], "cache": sc["cache"], "boundary": k, "op": list(trace[k]), "of": nb}, 1 < k < nb - 1,
+                        features=["user-codec-direct-write", "start:" + sc["start"], "killed-before:" + trace[k][0].split(".")[0].split(":")[0]],
+                        key=["codec", sc["start"], sc["cache"], n, k])
+    finally:
+        if own:
+            scratch.clean()
+
+
 def shard(idx, n, tier, seed, count):
     ev = Ev()
     import dds  # noqa: imported once so that the forked children inherit the loaded (unused) modules
@@ -280,6 +407,8 @@ def shard(idx, n, tier, seed, count):
     opts = {"exclude": common.open_features(ID), "max_funcs": 4, "max_mods": 1, "rets": True, "classes": False, "data_den": 2}
     try:
         v = common.hyp_drive(scenario_strategy(opts), lambda c: check_scenario(c, ev, scratch), seed * 1000 + 600 + idx, count, ev, shrink_budget=12)
+        if v is None and idx % 4 == 1:
+            v = common.hyp_drive(codec_strategy(), lambda c: check_codec_scenario(c, ev, scratch), seed * 1000 + 650 + idx, 2 if tier == "quick" else 8, ev, shrink_budget=4)
     finally:
         scratch.clean()
     ev.exhaustive = True
@@ -292,6 +421,8 @@ def run(tier, seed, scale=1.0):
 
 
 def replay(case):
+    if case.get("codec"):
+        return check_codec_scenario({x: y for x, y in case.items() if x != "k"}, only_k=case.get("k"))
     k = case.get("k")
     sc = {x: y for x, y in case.items() if x != "k"}
     check_scenario(sc, only_k=k)
